@@ -116,6 +116,43 @@ impl core::ops::Mul<CVal> for Coeff {
         ensures r.lo() == self.pos(), r.hi() == self.pos() + 1, r.count() == 1, r.czero()
     { unimplemented!() }
 }
+// A constraint value (or a bare coefficient) ADDED to the accumulator instead of being weighted still type-checks - as a part of
+// the result that no coefficient weights (constant part non-zero / an untracked field element): the contract, not the type checker,
+// reports it (seeded C16_coeff0_dropped: `total_sum + value`; C16w4_3: `total_sum + c[40] + value`).
+impl AddSpecImpl<CVal> for Felt {
+    open spec fn obeys_add_spec() -> bool { false }
+    open spec fn add_req(self, rhs: CVal) -> bool { true }
+    open spec fn add_spec(self, rhs: CVal) -> Felt { arbitrary() }
+}
+impl core::ops::Add<CVal> for Felt {
+    type Output = Felt;
+    #[verifier::external_body]
+    fn add(self, rhs: CVal) -> (r: Felt) { unimplemented!() }     // an untracked field element (nothing is known about its value)
+}
+impl AddSpecImpl<CVal> for Lin {
+    open spec fn obeys_add_spec() -> bool { false }
+    open spec fn add_req(self, rhs: CVal) -> bool { true }
+    open spec fn add_spec(self, rhs: CVal) -> Lin { arbitrary() }
+}
+impl core::ops::Add<CVal> for Lin {
+    type Output = Lin;
+    #[verifier::external_body]
+    fn add(self, rhs: CVal) -> (r: Lin)
+        ensures r.lo() == self.lo(), r.hi() == self.hi(), r.count() == self.count(), !r.czero()
+    { unimplemented!() }
+}
+impl AddSpecImpl<Coeff> for Lin {
+    open spec fn obeys_add_spec() -> bool { false }
+    open spec fn add_req(self, rhs: Coeff) -> bool { self.hi() <= rhs.pos() }
+    open spec fn add_spec(self, rhs: Coeff) -> Lin { arbitrary() }
+}
+impl core::ops::Add<Coeff> for Lin {
+    type Output = Lin;
+    #[verifier::external_body]
+    fn add(self, rhs: Coeff) -> (r: Lin)     // the coefficient enters with weight one: linear, position used once
+        ensures r.lo() == self.lo(), r.hi() == rhs.pos() + 1, r.count() == self.count() + 1, r.czero() == self.czero()
+    { unimplemented!() }
+}
 /// ORACLE (C16): the value is a linear form with exactly one term per coefficient position 0..n-1 and no constant part
 pub open spec fn lin_complete(r: Lin, n: int) -> bool { r.lo() >= 0 && r.hi() <= n && r.count() == n && r.czero() }
 } // verus!
